@@ -1043,6 +1043,11 @@ namespace awkward {
                                                   generator,
                                                   cache);
         out.get()->set_cache_depths_from(this);
+        if (slicearray->shape().size() > 1) {
+          // every further dimension of the index array is a regular dimension
+          // of the result
+          out.get()->add_to_cache_depths((int64_t)slicearray->shape().size() - 1);
+        }
         return out;
       }
 
